@@ -3,10 +3,10 @@
 package main
 
 import (
-	"strings"
 	"fmt"
 	"os"
 	"path/filepath"
+	"strings"
 	"sync"
 	"sync/atomic"
 	"testing"
@@ -191,7 +191,6 @@ func storeUserMap(um *UserMap, m *map[string]bool) {
 	atomic.StorePointer(&um.m, unsafe.Pointer(m)) // #nosec G103
 }
 
-
 // vC20Watcher: reloads driven by the real file watcher.  A large list is put in place by rename (as editors and
 // ConfigMap updates do) and, while its reload is still parsing, a small list is written in place.  Once the small
 // list is in force it must stay in force: a reload that started earlier must not publish its (older) contents later.
@@ -229,7 +228,9 @@ func vC20Watcher(t *testing.T, out *vEmitter) {
 	// how long does the large list take to load?
 	t0 := time.Now()
 	_ = os.WriteFile(path, []byte(big.String()), 0o600)
-	if !waitFor(func() bool { return um.IsValid("user0000001@big.example") && um.IsValid(fmt.Sprintf("user%07d@big.example", vPick(150000, 400000)-1)) }, 20*time.Second) {
+	if !waitFor(func() bool {
+		return um.IsValid("user0000001@big.example") && um.IsValid(fmt.Sprintf("user%07d@big.example", vPick(150000, 400000)-1))
+	}, 20*time.Second) {
 		out.Stat("c20_watcher_silent", 1)
 		return
 	}
